@@ -104,6 +104,34 @@ def sync_reshape(arr):
     sync_reshape(base)
 
 
+def unhashable(v):
+    """a value Python refuses as a set member / dictionary key: a dict, a list, a set, an array, an instance of a class
+    that defines __eq__ without __hash__ (CPython then sets __hash__ = None; subclasses inherit it), a tuple holding one"""
+    if isinstance(v, DictV):
+        return True
+    if isinstance(v, ListV):
+        if getattr(v, 'is_tuple', False) or getattr(v, 'frozen', False):
+            return any(unhashable(x) for x in v.items) if getattr(v, 'is_tuple', False) else False
+        if is_iter(v):
+            return False
+        return True
+    if isinstance(v, Obj) and v.ci is not None:
+        for k in v.ci.mro:
+            if '__hash__' in k.methods:
+                return False
+            if '__hash__' in k.class_attrs:
+                nd = k.class_attrs['__hash__']
+                return isinstance(nd, ast.Constant) and nd.value is None
+            if '__eq__' in k.methods:
+                return True
+            if any(d.split('(')[0].split('.')[-1] == 'dataclass' for d in k.decorators):
+                d_ = next(d for d in k.decorators if d.split('(')[0].split('.')[-1] == 'dataclass')
+                if 'frozen=True' in d_.replace(' ', '') or 'unsafe_hash=True' in d_.replace(' ', ''):
+                    return False
+                return 'eq=False' not in d_.replace(' ', '')
+    return False
+
+
 def make_set(I, items, n=None):
     """a set of hashable abstract values: strings and decided-distinct numbers, insertion order kept"""
     out = []
@@ -129,7 +157,7 @@ def make_set(I, items, n=None):
                 same_ = px is y
             dup = dup or same_
         if not dup:
-            if isinstance(px, (DictV,)) or (isinstance(px, ListV) and getattr(px, 'is_array', False)):
+            if unhashable(px):
                 raise _RaisedExc(Raised('TypeError', n))            # unhashable
             out.append(px)
     r_ = ListV(out)
@@ -235,6 +263,22 @@ class FuncRef:
         self.frame_self = frame_self    # `self` of the enclosing method (for super() inside a nested function)
 
 
+class _FrozenTable(dict):
+    """a snapshot handed out where Python hands out a live view: reading is exact, a write through it is refused"""
+
+    def _no(self, *a, **k):
+        raise Unsupported('write through __dict__ of an object with __slots__')
+    __setitem__ = __delitem__ = pop = popitem = setdefault = update = clear = _no
+
+
+class PropertyV:
+    """what the builtin ``property(fget, fset)`` returns when it is called as an ordinary function (e.g. inside a
+    factory): the two functions, with their closures"""
+
+    def __init__(self, fget, fset):
+        self.fget, self.fset = fget, fset
+
+
 class Env(dict):
     """local scope of a nested function / lambda, chained to the scope it was defined in (reads fall through to the
     enclosing scope, writes stay local - Python's closure rules without ``nonlocal``)"""
@@ -286,7 +330,27 @@ class DictV:
         """hashable normal form of a key; remembers the original"""
         if isinstance(k, (str, int)) and not isinstance(k, bool):
             return k
+        if unhashable(k):
+            raise _RaisedExc(Raised('TypeError'))           # unhashable type
         nk = repr(k)
+        if isinstance(k, Rat) and nk not in self.keyobj:
+            # a number as key: whether it is one of the numbers already there must be decided, not assumed
+            for ok_, ov_ in self.keyobj.items():
+                if isinstance(ov_, Rat) and ok_ in self.d:
+                    d_ = k - ov_
+                    if d_.iszero():
+                        return ok_
+                    if not d_.is_const():
+                        raise Unsupported('dictionary keys: equality of symbolic numbers %r and %r undecided'
+                                          % (k, ov_))
+            for ok_ in self.d:
+                if isinstance(ok_, int) and not isinstance(ok_, bool):
+                    d_ = k - C(ok_)
+                    if d_.iszero():
+                        return ok_
+                    if not d_.is_const():
+                        raise Unsupported('dictionary keys: equality of the symbolic number %r and %r undecided'
+                                          % (k, ok_))
         self.keyobj[nk] = k
         return nk
 
@@ -517,6 +581,8 @@ class Interp:
         self.default_cache = {}
         self._is_gen = {}
         self.module_globals = {}      # (module, node id) -> shared mutable module-level container
+        self.evaluating = set()       # ids of module-level right-hand sides being evaluated (X = f(X))
+        self.func_attrs = {}          # (def node id, closure id, name) -> attribute stored on a function object
         self.sym_strings = {}         # placeholder python str -> (width, cls): symbolic text values
         self.num_widths = {}          # repr(Rat) -> printed width of that number under %d / %.1f / str()
         self.cuts = []                # (node, text) operations that cut through a symbolic field
@@ -648,7 +714,15 @@ class Interp:
                 elif n_ in defaults:
                     dk = (id(fn), n_)
                     if dk not in self.default_cache:
-                        self.default_cache[dk] = Frame(self, module, {}, owner, None).ev(defaults[n_])
+                        env0 = {}
+                        if owner is not None and isinstance(owner, ClassInfo) and fn in owner.node.body:
+                            # defaults are evaluated while the class body runs: names bound above the def are seen
+                            for nm in ast.walk(defaults[n_]):
+                                if isinstance(nm, ast.Name) and nm.id in owner.class_attrs and \
+                                        owner.class_attrs[nm.id].lineno < fn.lineno:
+                                    env0[nm.id] = Frame(self, owner.module, {}, owner, None).ev(
+                                        owner.class_attrs[nm.id])
+                        self.default_cache[dk] = Frame(self, module, env0, owner, None).ev(defaults[n_])
                     env[n_] = self.default_cache[dk]     # evaluated once, shared by every call (Python semantics)
                 else:
                     raise _RaisedExc(Raised('TypeError', fn))
@@ -696,8 +770,45 @@ class Interp:
                         yield from module_level(getattr(st_, attr_, None) or [])
                     for h_ in getattr(st_, 'handlers', None) or []:
                         yield from module_level(h_.body)
+        FILTER_API = ('filterwarnings', 'simplefilter', 'resetwarnings', 'filters')
+
+        def touches_filters(node, m, depth=0):
+            """does running this statement (or a helper of the same module it calls) reach the warnings filter API?"""
+            for nd in ast.walk(node):
+                if isinstance(nd, ast.Attribute) and isinstance(nd.value, ast.Name):
+                    al = m.aliases.get(nd.value.id)
+                    if al and al[0] == 'module' and al[1] == 'warnings' and nd.attr in FILTER_API:
+                        return True
+                elif isinstance(nd, ast.Name):
+                    al = m.aliases.get(nd.id)
+                    if al and al[0] == 'object' and al[1] == 'warnings' and al[2] in FILTER_API:
+                        return True
+                    if nd.id in m.functions and depth < 4 and touches_filters(m.functions[nd.id], m, depth + 1):
+                        return True
+            return False
+
+        def direct(st, m):
+            f = st.value.func
+            if isinstance(f, ast.Attribute) and isinstance(f.value, ast.Name):
+                al = m.aliases.get(f.value.id)
+                return bool(al and al[0] == 'module' and al[1] == 'warnings')
+            if isinstance(f, ast.Name):
+                al = m.aliases.get(f.id)
+                return bool(al and al[0] == 'object' and al[1] == 'warnings')
+            return False
         for m in self.repo.modules.values():
-            for st in module_level(m.tree.body):
+            body = list(m.tree.body)
+            for st in m.tree.body:
+                if isinstance(st, ast.ClassDef):
+                    body.extend(x for x in st.body if not isinstance(x, (ast.FunctionDef, ast.AsyncFunctionDef)))
+            for st in module_level(body):
+                # code run at import that is not a bare filter call (loops, calls of helpers of the module, statements
+                # of a class body) is executed for what it does to the filter list; the walk only selects it
+                if (isinstance(st, (ast.For, ast.While)) or
+                        (isinstance(st, ast.Expr) and isinstance(st.value, ast.Call) and not direct(st, m))) and \
+                        touches_filters(st, m):
+                    Frame(self, m, {}, None, None).exec_stmt(st)
+                    continue
                 if not (isinstance(st, ast.Expr) and isinstance(st.value, ast.Call)):
                     continue
                 f = st.value.func
@@ -716,6 +827,65 @@ class Interp:
                 args = [fr.ev(a_) for a_ in st.value.args]
                 kwargs = {k_.arg: fr.ev(k_.value) for k_ in st.value.keywords}
                 _add_filter(self, args, kwargs, st, name == 'simplefilter')
+
+    def eval_global(self, m, node):
+        """the value a module-level binding creates, once per interpreter (at import in Python)"""
+        key = (m.name, id(node))
+        if key not in self.module_globals:
+            if id(node) in self.evaluating:
+                raise Unsupported('module-level name defined in terms of itself')
+            self.evaluating.add(id(node))
+            try:
+                self.module_globals[key] = Frame(self, m, {}, None, None).ev(node)
+            finally:
+                self.evaluating.discard(id(node))
+        return self.module_globals[key]
+
+    def table_revised(self, m, node):
+        """name of the module-level table `node` when statements run at import, other than its binding and the
+        recognised `name.update({literal})`, mention it; None when the literal (plus those updates) is the table"""
+        key = ('revised', m.name, id(node))
+        if key in self.module_globals:
+            return self.module_globals[key]
+        names = [nm for nm, vals in m.assigns.items() if vals and vals[-1] is node]
+        out = None
+        if names:
+            nm = names[0]
+            known = set()
+            for u_ in m.updates.get(nm, []):
+                known.add(id(u_))
+
+            def stmts(body):
+                for st in body:
+                    if isinstance(st, (ast.FunctionDef, ast.AsyncFunctionDef, ast.ClassDef)):
+                        continue
+                    yield st
+            for st in stmts(m.tree.body):
+                if isinstance(st, (ast.Assign, ast.AnnAssign)) and getattr(st, 'value', None) is node:
+                    continue
+                if isinstance(st, ast.Expr) and isinstance(st.value, ast.Call) and st.value.args and \
+                        id(st.value.args[0]) in known:
+                    continue
+                if any(isinstance(x, ast.Name) and x.id == nm for x in ast.walk(st)):
+                    out = nm
+                    break
+        self.module_globals[key] = out
+        return out
+
+    def module_body(self, m, n=None):
+        """the names a module's body leaves behind, from running it once per interpreter (imports, defs and classes are
+        resolved through the index as everywhere else)"""
+        key = (m.name, '<body>')
+        if key not in self.module_globals:
+            fr = Frame(self, m, {}, None, None)
+            self.module_globals[key] = fr.env
+            for st in m.tree.body:
+                if isinstance(st, (ast.Import, ast.ImportFrom, ast.FunctionDef, ast.AsyncFunctionDef, ast.ClassDef)):
+                    continue
+                if isinstance(st, ast.Expr) and isinstance(st.value, ast.Constant):
+                    continue
+                fr.exec_stmt(st)
+        return self.module_globals[key]
 
     def parsed_number(self, field, how='float'):
         """the number read back from a printed value: the value itself when the format loses nothing (an integer
@@ -739,6 +909,13 @@ class Interp:
         """a modelled library function; every keyword argument must be one the model reads (or is listed as having no
         influence), otherwise the construct is outside what is modelled"""
         h = self.native[name]
+        if name.startswith('numpy.') and name != 'numpy.fromiter' and \
+                any(is_iter(a) or isinstance(a, ZipV) for a in args):
+            # numpy does not run over an iterator object: it wraps it in a 0-d object array. np.any / np.all hand the
+            # object back (true as a condition), the others compute nothing of what was meant
+            if name in ('numpy.any', 'numpy.all') and len(args) == 1 and not kwargs:
+                return True
+            raise Unsupported('%s of an iterator object (generator, map, zip ...)' % name, n)
         if any(is_iter(a) for a in args) and not name.startswith(('itertools.', 'functools.', 'more_itertools.')):
             args = drain(args)
         if not kwargs or NATIVE_KW_IGNORED.get(name, ()) is None:
@@ -768,6 +945,7 @@ class Interp:
     def call_function(self, module, fn, args, kwargs, self_obj=None, owner=None, name=None, closure=None,
                       preset=None, frame_self=None, raw=False):
         """inline a FunctionDef with evaluated args. Returns value or Raised."""
+        module = getattr(fn, '_home_module', module)    # a module-level function bound in a class body elsewhere
         try:
             env = self._bind(module, fn, args, kwargs, self_obj, owner, name, preset)
             if closure is not None:
@@ -992,6 +1170,74 @@ class Interp:
             out = out + self.format_piece(v, spec)
         return self.plain(out)
 
+    _PCT = re.compile(r'%(?:\((\w+)\))?([-+ 0#]*)(\d+|\*)?(?:\.(\d+|\*))?([a-zA-Z%])')
+
+    def percent_format(self, fmt, right, n=None):
+        """`template % values` (printf-style): every conversion is printed as str.format prints the same value with
+        the same width and precision; what the two styles do differently (`%d` truncates, `%s` right-justifies, a
+        tuple supplies several values and a list is one) is spelled out here"""
+        named = isinstance(right, DictV)
+        vals = list(right.items) if isinstance(right, ListV) and getattr(right, 'is_tuple', False) else [right]
+        out, pos, k = SegStr(), 0, 0
+        for m_ in self._PCT.finditer(fmt):
+            lit = fmt[pos:m_.start()]
+            if '%' in lit:
+                raise _RaisedExc(Raised('ValueError', n))           # an incomplete conversion
+            out = out + lit
+            pos = m_.end()
+            key, flags, width, prec, conv = m_.groups()
+            if conv == '%':
+                out = out + '%'
+                continue
+            if width == '*' or prec == '*' or '#' in flags or conv not in 'sdifeEgG':
+                raise Unsupported('printf conversion %r' % m_.group(0), n)
+            if key is not None:
+                if not named:
+                    raise _RaisedExc(Raised('TypeError', n))        # format requires a mapping
+                kk = right.nkey(key)
+                if kk not in right.d:
+                    raise _RaisedExc(Raised('KeyError', n))
+                v = right.d[kk]
+            else:
+                if named and len(vals) == 1 and vals[0] is right:
+                    pass                    # '%s' % some_dict prints the dictionary
+                if k >= len(vals):
+                    raise _RaisedExc(Raised('TypeError', n))        # not enough arguments for format string
+                v = vals[k]
+                k += 1
+            if conv == 's':
+                if prec is not None:
+                    raise Unsupported('printf conversion %r (text cut to a precision)' % m_.group(0), n)
+                if isinstance(v, (Obj, ZipV)) or is_iter(v):
+                    raise Unsupported('printf %%s of %r' % (v,), n)
+                piece = self.seg(v)         # str() of the value (seg refuses what it cannot spell)
+                w = int(width) if width else 0
+                if w:
+                    padn = max(0, w - len(piece))
+                    piece = piece + ' ' * padn if '-' in flags else SegStr.lit(' ' * padn) + piece
+                out = out + piece
+                continue
+            if not isinstance(v, Rat):
+                if isinstance(v, (str, SegStr, ListV, DictV)) or v is None:
+                    raise _RaisedExc(Raised('TypeError', n))        # a number is required
+                raise Unsupported('printf %%%s of %r' % (conv, v), n)
+            if conv in 'di':
+                conv = 'd'
+                if not (v.iszero() or (v.is_const() and v.const_value().denominator == 1) or self.is_integral(v)):
+                    raise Unsupported('printf %d of a number that may have a fractional part (it is cut off)', n)
+            out = out + self.seg(v, '%' + flags + (width or '') + ('.' + prec if prec is not None else '') + conv)
+        lit = fmt[pos:]
+        if '%' in lit:
+            raise _RaisedExc(Raised('ValueError', n))
+        out = out + lit
+        if not named and k != len(vals) and not (k == 0 and False):
+            raise _RaisedExc(Raised('TypeError', n))                # not all arguments converted
+        return self.plain(out)
+
+    def is_integral(self, v):
+        """a number known to be whole: integer coefficients over the symbols declared whole"""
+        return v.integer_coefficients() and all(a in self.int_syms for a in v.atoms())
+
     def format_piece(self, v, spec):
         """abstract text of one replacement field (str.format and f-strings)"""
         if True:
@@ -1127,21 +1373,25 @@ class Interp:
                 return C(va // fb.const_value())
             nm_ = 'FLOORDIV{%r,%r}' % (fa, fb)
             return self.D.sym(nm_)
-        if op in ('&', '-') and isinstance(a, ListV) and isinstance(b, ListV) and getattr(a, 'is_set', False) \
-                and getattr(b, 'is_set', False):
-            inb = lambda x_: any((x_ == y_) if isinstance(x_, str) or isinstance(y_, str) else self.struct_eq(x_, y_)
-                                 for y_ in b.items)
-            r_ = ListV([x_ for x_ in a.items if inb(x_) == (op == '&')])
-            r_.is_set = True
-            return r_
-        if op == '|' and isinstance(a, ListV) and isinstance(b, ListV) and getattr(a, 'is_set', False):
-            r_ = ListV(list(a.items))
-            for x in b.items:
-                px = self.plain(x)
-                if not any(self.plain(y) == px for y in r_.items):
-                    r_.items.append(x)
-            r_.is_set = True
-            return r_
+        if op in ('&', '-', '|', '^') and isinstance(a, ListV) and isinstance(b, ListV) and (
+                getattr(a, 'is_set', False) or getattr(b, 'is_set', False) or
+                getattr(a, 'is_keys', False) or getattr(b, 'is_keys', False)):
+            # set algebra: between two sets, or between a dictionary's key view and any iterable
+            setlike = lambda v_: getattr(v_, 'is_set', False) or getattr(v_, 'is_keys', False)
+            if not ((setlike(a) and setlike(b)) or getattr(a, 'is_keys', False) or getattr(b, 'is_keys', False)):
+                raise _RaisedExc(Raised('TypeError'))       # set - list
+            same = lambda x_, y_: (x_ == y_) if isinstance(x_, str) or isinstance(y_, str) else self.struct_eq(x_, y_)
+            ina = lambda y_: any(same(x_, y_) for x_ in a.items)
+            inb = lambda x_: any(same(x_, y_) for y_ in b.items)
+            if op == '&':
+                out_ = [x_ for x_ in a.items if inb(x_)]
+            elif op == '-':
+                out_ = [x_ for x_ in a.items if not inb(x_)]
+            elif op == '|':
+                out_ = list(a.items) + [y_ for y_ in b.items if not ina(y_)]
+            else:
+                out_ = [x_ for x_ in a.items if not inb(x_)] + [y_ for y_ in b.items if not ina(y_)]
+            return make_set(self, out_)
         if op == '**' and isinstance(a, ListV) and getattr(a, 'is_array', False) and isinstance(b, Rat) and \
                 b.is_const() and b.const_value() < 0 and b.const_value().denominator == 1:
             if getattr(a, 'dtype', None) == 'int':
@@ -1471,6 +1721,9 @@ class Interp:
                 r = self.order(a, op, b)
                 if r is not None:
                     return r
+        if op in ('<', '<=', '>', '>=') and type(a) is str and type(b) is str and \
+                a not in self.sym_strings and b not in self.sym_strings:
+            return {'<': a < b, '<=': a <= b, '>': a > b, '>=': a >= b}[op]      # by code point
         raise Unsupported('undecidable comparison %s' % op, node)
 
     def number_type(self, v, node=None):
@@ -2026,11 +2279,40 @@ class Frame:
                 raise Unsupported('for-else over a vector', st, self.module.relpath)
             return
         lazy = is_iter(it)
-        seq = list(it.items) if lazy else self.iter_items(it, st)
+        sized = it.d if isinstance(it, DictV) else it.items if isinstance(it, ListV) and getattr(it, 'is_set', False) \
+            else None
+        n0 = len(sized) if sized is not None else None
+        live = isinstance(it, ListV) and not lazy and sized is None and not getattr(it, 'tainted', False)
+        if isinstance(it, ZipV):
+            zrest = list(it.items())
+            it._rest = zrest            # a zip / enumerate object: a break leaves the rest in it
+            seq = list(zrest)
+        elif live:
+            seq = None                  # a list is iterated by position over the live object
+        else:
+            zrest = None
+            seq = list(it.items) if lazy else self.iter_items(it, st)
         broke = False
-        for item in seq:
+        pos = 0
+        while True:
+            if sized is not None and len(sized) != n0:
+                # dictionary / set changed size during iteration (asked before every round and after the last one)
+                raise _RaisedExc(Raised('RuntimeError', st))
+            if live:
+                if pos >= len(it.items):
+                    break
+                if pos > 200000:
+                    raise Unsupported('a loop that keeps extending the list it runs over', st, self.module.relpath)
+                item = it.items[pos]
+            else:
+                if pos >= len(seq):
+                    break
+                item = seq[pos]
+            pos += 1
             if lazy and it.items:
                 it.items.pop(0)         # taken from the iterator; a break leaves the rest in it
+            if isinstance(it, ZipV) and zrest:
+                zrest.pop(0)
             self.assign(st.target, item)
             try:
                 self.exec_block(st.body)
@@ -2059,6 +2341,9 @@ class Frame:
             return [it.attrs[f_] for f_ in it.attrs['__fields__'].items]        # a named tuple is a tuple
         if it is None or isinstance(it, (bool, Rat)):
             raise _RaisedExc(Raised('TypeError', node))     # not iterable
+        if isinstance(it, Obj) and '__iter__' in it.opaque_methods:
+            r = it.opaque_methods['__iter__'](self.I, it, [], {})
+            return take(r) if isinstance(r, ListV) else self.iter_items(r, node)
         if isinstance(it, Obj) and it.ci is not None and self.I.repo.find_method(it.ci, '__iter__', missing_ok=True):
             r = self.I.call_method(it, '__iter__', [], {})
             if isinstance(r, ListV):
@@ -2139,6 +2424,9 @@ class Frame:
             idx = self.ev(target.slice)
             if isinstance(base, ListV) and getattr(base, 'is_tuple', False):
                 raise _RaisedExc(Raised('TypeError', target))       # 'tuple' object does not support item assignment
+            if isinstance(base, ListV) and (getattr(base, 'frozen_view', False) or any(
+                    getattr(x_, 'frozen_view', False) for x_ in base.items if isinstance(x_, ListV))):
+                raise Unsupported('store through a strided view (reshape with order=)', target, self.module.relpath)
             if isinstance(base, ListV) and isinstance(idx, ListV) and getattr(idx, 'is_array', False) and \
                     idx.items and all(isinstance(x, bool) for x in idx.items):
                 # a[mask] = value: the positions where the boolean array is True along the first axis
@@ -2213,6 +2501,12 @@ class Frame:
             raise Unsupported('subscript store on %r' % (base,), target, self.module.relpath)
         if isinstance(target, ast.Attribute):
             base = self.ev(target.value)
+            if isinstance(base, FuncRef) and base.self_obj is None and target.attr not in (
+                    '__code__', '__defaults__', '__kwdefaults__', '__globals__', '__closure__', '__call__'):
+                # functions have a writable __dict__ (__name__, __doc__, __wrapped__, own attributes): nothing in
+                # the call protocol changes
+                I.func_attrs[(id(base.fn), id(base.closure), target.attr)] = v
+                return
             if isinstance(base, Obj):
                 if base.ci is not None:
                     if I.repo.find_method(base.ci, '__setattr__', missing_ok=True):
@@ -2222,6 +2516,11 @@ class Frame:
                     if got:
                         I.call_function(got[0].module, got[1], [v], {}, self_obj=base, owner=got[0])
                         return
+                    got = I.repo.find_method(base.ci, target.attr, missing_ok=True)
+                    if got and any(ast.unparse(d) in ('property', 'functools.cached_property', 'cached_property')
+                                   for d in got[1].decorator_list):
+                        if any(ast.unparse(d) == 'property' for d in got[1].decorator_list):
+                            raise _RaisedExc(Raised('AttributeError', target))      # property without a setter
                     mp = self.made_property(base, target.attr, target)
                     if mp is not None:
                         if mp[1] is None:
@@ -2285,25 +2584,9 @@ class Frame:
                 left = self.ev(n.left)
                 right = self.ev(n.right)
                 if isinstance(left, str) and left not in I.sym_strings:
-                    m_ = re.fullmatch(r'%[-+ 0#]*\d*(?:\.\d+)?[dfeEgs]', left)
-                    if m_ and isinstance(right, (Rat, str, SegStr)):
-                        return I.plain(I.seg(right, left))
-                    vals = right.items if isinstance(right, ListV) else [right]
-                    conc = []
-                    for v_ in vals:
-                        if isinstance(v_, Rat) and (v_.is_const() or v_.iszero()):
-                            cv = v_.const_value() if not v_.iszero() else 0
-                            conc.append(int(cv) if cv.denominator == 1 else float(cv))
-                        elif isinstance(v_, str) and v_ not in I.sym_strings:
-                            conc.append(v_)
-                        else:
-                            conc = None
-                            break
-                    if conc is not None:
-                        try:
-                            return left % tuple(conc)
-                        except (TypeError, ValueError):
-                            raise _RaisedExc(Raised('TypeError', n))
+                    return I.percent_format(left, right, n)
+                if isinstance(left, SegStr) or (isinstance(left, str) and left in I.sym_strings):
+                    raise Unsupported('% formatting with a symbolic template', n, self.module.relpath)
                 if isinstance(left, Rat) and isinstance(right, Rat):
                     return I.binop('%', left, right)
                 raise Unsupported('operator %', n, self.module.relpath)
@@ -2800,6 +3083,8 @@ class Frame:
                     return NativeRef(full)          # a library function used as a value (select = np.max if ...)
                 raise Unsupported('unknown global %s' % full, n, self.module.relpath)
         base = self.ev(n.value)
+        if isinstance(base, FuncRef) and (id(base.fn), id(base.closure), n.attr) in I.func_attrs:
+            return I.func_attrs[(id(base.fn), id(base.closure), n.attr)]       # an attribute stored on the function
         if isinstance(base, SuperV):
             ci_ = base.self_obj if isinstance(base.self_obj, ClassInfo) else base.self_obj.ci
             got = I.repo.find_method(ci_, n.attr, after=base.owner)
@@ -2881,6 +3166,16 @@ class Frame:
                 if any(ast.unparse(d) == 'classmethod' for d in got[1].decorator_list):
                     fr_.self_obj = base
                 return fr_
+            # attribute defined in a class body, read through the class (cls.x, type(self).x, ClassName.x): the one
+            # value all instances share - the same store as the read through an instance (obj_attr)
+            for k in base.mro:
+                if n.attr in k.class_attrs:
+                    if isinstance(k.class_attrs[n.attr], ast.Call):
+                        break               # may be a descriptor / property object: not modelled
+                    key = (k.qual, n.attr)
+                    if key not in I.module_globals:
+                        I.module_globals[key] = Frame(I, k.module, {}, k, None).ev(k.class_attrs[n.attr])
+                    return I.module_globals[key]
         if n.attr == '__code__' and isinstance(base, (FuncRef, BoundOpaque)):
             return code_object(I, base, n)
         if n.attr == '__name__' and isinstance(base, FuncRef) and hasattr(base.fn, 'name'):
@@ -2890,7 +3185,29 @@ class Frame:
     def dict_view(self, obj, node=None):
         """obj.__dict__ / vars(obj): the live attribute table (a write through it is a write to the object)"""
         if obj.ci is not None and any('__slots__' in k.class_attrs for k in obj.ci.mro):
-            raise Unsupported('__dict__ of an object whose class uses __slots__', node, self.module.relpath)
+            # names listed in a __slots__ of the MRO live in descriptors, not in __dict__; the instance has a __dict__
+            # as long as one class of the MRO has no __slots__
+            slots = set()
+            for k in obj.ci.mro:
+                sv = k.class_attrs.get('__slots__')
+                if sv is None:
+                    continue
+                if isinstance(sv, ast.Constant) and isinstance(sv.value, str):
+                    slots.add(sv.value)
+                elif isinstance(sv, (ast.Tuple, ast.List)) and \
+                        all(isinstance(e, ast.Constant) and isinstance(e.value, str) for e in sv.elts):
+                    slots.update(e.value for e in sv.elts)
+                else:
+                    raise Unsupported('__slots__ that is not a literal', node, self.module.relpath)
+            external = any(b_.split('.')[-1] not in ('object',) and b_.split('.')[-1] not in
+                           {c.name for c in k.bases} for k in obj.ci.mro for b_ in k.base_exprs)
+            if external:
+                raise Unsupported('__slots__ below a base class outside the package', node, self.module.relpath)
+            if all('__slots__' in k.class_attrs for k in obj.ci.mro) and '__dict__' not in slots:
+                raise _RaisedExc(Raised('AttributeError', node))
+            dv = DictV()
+            dv.d = _FrozenTable({k_: v_ for k_, v_ in obj.attrs.items() if k_ not in slots})
+            return dv
         dv = DictV()
         dv.d = obj.attrs
         return dv
@@ -2934,6 +3251,14 @@ class Frame:
         if key not in self.I.module_globals:
             self.I.module_globals[key] = Frame(self.I, k.module, {}, k, None).ev(call)
         v_ = self.I.module_globals[key]
+        if isinstance(v_, PropertyV):
+            if v_.fget is None:
+                raise Unsupported('property() without a getter', node, self.module.relpath)
+            fr0_ = self
+
+            def bound(f_):
+                return _stdlib.CallableV(lambda I_, fr_, a, k_, n_: fr0_.apply(f_, [obj] + list(a), k_, n_), 'accessor')
+            return bound(v_.fget), (bound(v_.fset) if v_.fset is not None else None)
         if isinstance(v_, Obj) and v_.ci is not None and (
                 self.I.repo.find_method(v_.ci, '__get__', missing_ok=True) or
                 self.I.repo.find_method(v_.ci, '__set__', missing_ok=True)):
@@ -2974,7 +3299,12 @@ class Frame:
                     key = (k.qual, attr)
                     if key not in I.module_globals:
                         I.module_globals[key] = Frame(I, k.module, {}, k, None).ev(k.class_attrs[attr])
-                    return I.module_globals[key]
+                    cv_ = I.module_globals[key]
+                    if isinstance(cv_, FuncRef) and cv_.self_obj is None:
+                        # a function found in the class (a lambda, a closure made by a factory) is bound to the
+                        # instance it is read through, like a def
+                        return FuncRef(cv_.module, cv_.fn, obj, k, cv_.closure, cv_.defaults, cv_.frame_self)
+                    return cv_
         if attr in obj.opaque_methods:
             return BoundOpaque(obj, attr)
         if attr == '__class__':
@@ -3033,6 +3363,13 @@ class Frame:
                 # a local variable of this function that has not been assigned yet
                 raise _RaisedExc(Raised('UnboundLocalError', n))
             raise _RaisedExc(Raised('NameError', n))
+        while isinstance(r, tuple) and r[0] == 'value' and id(r[2]) in I.evaluating:
+            # module-level `X = f(X)`: inside the k-th binding of a name the name denotes the value of the (k-1)-th
+            vals = r[1].assigns.get(name, [])
+            k_ = next((i_ for i_, v_ in enumerate(vals) if v_ is r[2]), 0)
+            if k_ == 0:
+                raise _RaisedExc(Raised('NameError', n))
+            r = ('value', r[1], vals[k_ - 1])
         return self.entity(r, n)
 
     def entity(self, r, n):
@@ -3048,18 +3385,17 @@ class Frame:
             if isinstance(node, (ast.Dict, ast.List)) and (
                     isinstance(node, ast.List) or len(node.keys) <= 3):
                 # small module-level container: mutable global state shared by every call in this run
-                key = (m.name, id(node))
-                if key not in self.I.module_globals:
-                    self.I.module_globals[key] = Frame(self.I, m, {}, None, None).ev(node)
-                return self.I.module_globals[key]
+                return self.I.eval_global(m, node)
             if isinstance(node, ast.Dict):
+                nm_ = self.I.table_revised(m, node)
+                if nm_ is not None:
+                    # import-time code other than `name.update({...})` writes the table (a helper, an alias, a loop,
+                    # update(zip(...)), name[key] = value): every reader sees what the module body leaves behind
+                    return self.I.module_body(m, n)[nm_]
                 return TableRef(m, node)
             # any other module-level value is created once when the module is imported (a sentinel object() keeps
             # its identity)
-            key = (m.name, id(node))
-            if key not in self.I.module_globals:
-                self.I.module_globals[key] = Frame(self.I, m, {}, None, None).ev(node)
-            return self.I.module_globals[key]
+            return self.I.eval_global(m, node)
         return r
 
     # ---- calls -----------------------------------------------------------
@@ -3200,6 +3536,9 @@ class Frame:
             return fv.obj.opaque_methods[fv.name](I, fv.obj, args, kwargs)
         if isinstance(fv, Obj) and '__call__' in fv.opaque_methods:
             return fv.opaque_methods['__call__'](I, fv, args, kwargs)
+        if isinstance(fv, Obj) and fv.ci is not None and not hasattr(fv, 'pmv_call') and \
+                I.repo.find_method(fv.ci, '__call__', missing_ok=True):
+            return I.call_method(fv, '__call__', args, kwargs)       # an instance of a class with __call__
         if hasattr(fv, 'pmv_call'):
             return fv.pmv_call(I, self, args, kwargs, n)
         if isinstance(fv, ExtRef):
@@ -3293,8 +3632,20 @@ def _table_method(I, fr, tab, name, args, kwargs, n):
             if e.raised.exc == 'KeyError':
                 return args[1] if len(args) > 1 else None
             raise
-    if name == 'keys' and not args:
-        return ListV([k.value for k in tab.node.keys if isinstance(k, ast.Constant)])
+    if name in ('keys', 'items', 'values', 'copy') and not args and not kwargs:
+        # the whole table as the dictionary the module body builds (literal plus the recognised updates), once per
+        # interpreter
+        key = ('table-dict', tab.module.name, id(tab.node))
+        if key not in I.module_globals:
+            dv = Frame(I, tab.module, {}, None, None).ev(tab.node)
+            for nm, vals in tab.module.assigns.items():
+                if vals and vals[-1] is tab.node:
+                    for u_ in tab.module.updates.get(nm, []):
+                        uv = Frame(I, tab.module, {}, None, None).ev(u_)
+                        dv.d.update(uv.d)
+                        dv.keyobj.update(uv.keyobj)
+            I.module_globals[key] = dv
+        return bound_native(I, fr, BoundNative(I.module_globals[key], name), args, kwargs, n)
     raise Unsupported('method %s of a module-level table' % name, n)
 
 
@@ -3873,35 +4224,59 @@ def builtin_call(I, fr, name, args, kwargs, n):
         r_.is_set = True
         r_.frozen = True
         return r_
-    if name == 'sorted' and 'key' in kwargs and isinstance(args[0], ListV):
-        keyf = kwargs['key']
-        items = list(args[0].items)
-        keys = [fr.apply(keyf, [x], {}, n) for x in items]
+    if name == 'property' and len(args) <= 4 and set(kwargs) <= {'fget', 'fset', 'fdel', 'doc'}:
+        sl_ = list(args[:2]) + [None] * (2 - len(args[:2]))
+        for i_, nm_ in enumerate(('fget', 'fset')):
+            if nm_ in kwargs:
+                sl_[i_] = kwargs[nm_]
+        if (len(args) > 2 and args[2] is not None) or kwargs.get('fdel') is not None:
+            raise Unsupported('property() with a deleter', n)
+        return PropertyV(sl_[0], sl_[1])
+    if name == 'sorted' and len(args) == 1 and set(kwargs) <= {'key', 'reverse'}:
+        v = args[0]
+        rev = kwargs.get('reverse', False)
+        if not isinstance(rev, bool):
+            rev = I.truth(rev, n)
+        keyf = kwargs.get('key')
+        if isinstance(v, (ZipV, DictV)) or (isinstance(v, ListV)):
+            items = list(fr.iter_items(v, n))
+        else:
+            raise Unsupported('sorted() of %r' % (v,), n)
+        if keyf is None and items and all(isinstance(x, str) for x in items):
+            if any(x in I.sym_strings for x in items) and len(items) > 1:
+                raise Unsupported('sorted() of texts whose spelling is symbolic', n)
+            return ListV(sorted(items, reverse=rev))
+        keys = items if keyf is None else [fr.apply(keyf, [x], {}, n) for x in items]
+
+        def before(x, y):
+            """x < y as Python's sort asks it (tuples and lists item by item)"""
+            if isinstance(x, ListV) and isinstance(y, ListV):
+                for p_, q_ in zip(x.items, y.items):
+                    if before(p_, q_):
+                        return True
+                    if before(q_, p_):
+                        return False
+                return len(x.items) < len(y.items)
+            if isinstance(x, str) and isinstance(y, str):
+                if x in I.sym_strings or y in I.sym_strings:
+                    if x == y:
+                        return False
+                    raise Unsupported('sorted() of texts whose spelling is symbolic', n)
+                return x < y
+            if isinstance(x, (Rat, bool)) and isinstance(y, (Rat, bool)):
+                return I.truth(I.compare('<', x, y, n), n)
+            raise Unsupported('sorted() of %r and %r' % (x, y), n)
         order_ = list(range(len(items)))
         for i in range(1, len(order_)):
             j = i
-            while j > 0 and I.compare('<', keys[order_[j]], keys[order_[j - 1]], n):
+            # a stable insertion sort; with reverse=True equal elements keep their original order as well
+            while j > 0 and (before(keys[order_[j - 1]], keys[order_[j]]) if rev
+                             else before(keys[order_[j]], keys[order_[j - 1]])):
                 order_[j], order_[j - 1] = order_[j - 1], order_[j]
                 j -= 1
         return ListV([items[i] for i in order_])
     if name == 'sorted':
-        v = args[0]
-        items = v.items if isinstance(v, ListV) else (list(v.d.keys()) if isinstance(v, DictV) else None)
-        rev = bool(kwargs.get('reverse', False))
-        if items is not None and all(isinstance(x, str) for x in items) and set(kwargs) <= {'reverse'}:
-            if any(x in I.sym_strings for x in items) and len(items) > 1:
-                raise Unsupported('sorted() of texts whose spelling is symbolic', n)
-            return ListV(sorted(items, reverse=rev))
-        if items is not None and all(isinstance(x, Rat) for x in items) and set(kwargs) <= {'reverse'}:
-            order_ = list(range(len(items)))
-            for i in range(1, len(order_)):
-                j = i
-                while j > 0 and I.compare('<', items[order_[j]], items[order_[j - 1]], n):
-                    order_[j], order_[j - 1] = order_[j - 1], order_[j]
-                    j -= 1
-            out_ = [items[i] for i in order_]
-            return ListV(list(reversed(out_)) if rev else out_)
-        raise Unsupported('sorted() of non-string items', n)
+        raise Unsupported('sorted() with these arguments', n)
     if name == 'print':
         f_ = kwargs.get('file')
         kwargs.get('flush')
@@ -3992,6 +4367,22 @@ ARRAY_METHOD_HOOK = None        # set by pmv.stdlib: methods of arrays / vectors
 
 
 TUPLE_METHODS = frozenset(dir(tuple))
+
+
+NUMPY_SCALAR_MEMBERS = frozenset('''
+T all any argmax argmin argsort astype base byteswap choose clip compress conj copy cumprod cumsum data device
+diagonal dtype dump dumps fill flags flat flatten getfield item itemsize max mean min nbytes ndim nonzero prod
+put ravel repeat reshape resize round searchsorted setfield setflags shape size sort squeeze std strides sum
+swapaxes take to_device tobytes tofile tolist trace transpose var view
+'''.split())
+
+
+def _number_members():
+    return set(dir(float)) | set(dir(int)) | NUMPY_SCALAR_MEMBERS | {
+        x for x in dir(float) + dir(int) if x.startswith('__')} | {'__array__', '__array_interface__', '__array_priority__', '__array_struct__', '__array_wrap__', '__array_namespace__', '__copy__', '__deepcopy__', '__class_getitem__', '__buffer__', '__setstate__'}
+
+
+NUMBER_MEMBERS = _number_members()      # a name no kind of number has is an AttributeError, whatever the value
 
 
 def bound_native(I, fr, bn, args, kwargs, n):
@@ -4107,14 +4498,8 @@ def bound_native(I, fr, bn, args, kwargs, n):
                         I.repo.find_method(x_.ci, '__eq__', missing_ok=True):
                     raise Unsupported('list.remove over objects with their own __eq__ (equality of model objects)', n)
             raise _RaisedExc(Raised('ValueError', n))
-        if name == 'sort' and not args and not kwargs:
-            items = list(b.items)
-            for i in range(1, len(items)):          # insertion sort through the ordering oracle (stable)
-                j = i
-                while j > 0 and I.compare('<', items[j], items[j - 1], n):
-                    items[j], items[j - 1] = items[j - 1], items[j]
-                    j -= 1
-            b.items[:] = items
+        if name == 'sort' and not args and set(kwargs) <= {'key', 'reverse'}:
+            b.items[:] = builtin_call(I, fr, 'sorted', [ListV(list(b.items))], kwargs, n).items
             return None
         if name == 'index':
             if len(args) != 1:
@@ -4142,7 +4527,9 @@ def bound_native(I, fr, bn, args, kwargs, n):
         if name == 'items':
             return ListV([ListV([b.okey(k), v]) for k, v in b.d.items()])
         if name == 'keys':
-            return ListV([b.okey(k) for k in b.d.keys()])
+            r_ = ListV([b.okey(k) for k in b.d.keys()])
+            r_.is_keys = True           # a key view takes part in set algebra (keys() & other, keys() - other)
+            return r_
         if name == 'values':
             return ListV(list(b.d.values()))
         if name == 'pop':
@@ -4224,7 +4611,10 @@ def bound_native(I, fr, bn, args, kwargs, n):
     real = dir(dict) if isinstance(b, DictV) else \
         dir(frozenset if getattr(b, 'frozen', False) else set) if isinstance(b, ListV) and getattr(b, 'is_set', False) \
         else dir(list) if isinstance(b, ListV) and not getattr(b, 'is_array', False) and not is_iter(b) \
-        else dir(str) if isinstance(b, str) else None
+        else dir(str) if isinstance(b, str) \
+        else dir(iter(())) if is_iter(b) \
+        else dir(bool) if isinstance(b, bool) \
+        else NUMBER_MEMBERS if isinstance(b, Rat) else None
     if real is not None and name not in real:
         raise _RaisedExc(Raised('AttributeError', n))     # e.g. dict.to_dict(), list.tolist()
     raise Unsupported('method %s on %r' % (name, b), n)
@@ -4448,8 +4838,28 @@ def _np_array(I, fr, args, kwargs, n):
             # an array made from a list of numbers the caller supplied as they are: its element type is the caller's
             # (whole numbers give an integer array, into which a real value does not fit)
             r.dtype = 'caller'
+        if tag is None and getattr(r, 'dtype', None) is None and isinstance(n, ast.Call) and n.args and \
+                _int_display(n.args[0]):
+            # np.array([0] * 7), np.array([[1, 2], [3, 4]]): a display of Python int literals gives an int64 array
+            r.dtype = 'int'
         return r
     return v
+
+
+def _int_display(node):
+    """a list / tuple display (possibly nested, possibly repeated with *) whose leaves are all int literals"""
+    if isinstance(node, (ast.List, ast.Tuple)):
+        return bool(node.elts) and all(_int_display(e) or _int_literal(e) for e in node.elts)
+    if isinstance(node, ast.BinOp) and isinstance(node.op, ast.Mult):
+        return (_int_display(node.left) and not isinstance(node.right, (ast.List, ast.Tuple))) or \
+            (_int_display(node.right) and not isinstance(node.left, (ast.List, ast.Tuple)))
+    return False
+
+
+def _int_literal(e):
+    if isinstance(e, ast.UnaryOp) and isinstance(e.op, (ast.USub, ast.UAdd)):
+        e = e.operand
+    return isinstance(e, ast.Constant) and type(e.value) is int
 
 
 def _np_asarray(I, fr, args, kwargs, n):
@@ -4552,7 +4962,7 @@ def _np_zeros(val):
 
     def h0(I, fr, args, kwargs, n):
         shape = _arg(args, kwargs, 0, 'shape')
-        if isinstance(shape, ListV) and len(shape) >= 2:
+        if isinstance(shape, ListV) and len(shape) >= 1:
             dims = [_as_int(x, n) for x in shape.items]
 
             def build(ds):
